@@ -93,7 +93,7 @@ def run_harnesses(crate, harnesses, jobs=8, mem_gb=14, extra_args=(), log_dir=No
     tdir = os.path.join(CACHE, f"kani-{crate}")
     cap = max(h.cap for h in harnesses)
     cmd = ["cargo", "kani", "--target-dir", tdir, "-j", str(jobs), "--output-format", "terse",
-           "-Z", "unstable-options", "-Z", "stubbing", "--harness-timeout", f"{cap}s", "--exact"]
+           "-Z", "unstable-options", "-Z", "stubbing", "-Z", "restrict-vtable", "--harness-timeout", f"{cap}s", "--exact"]
     if features:
         cmd += ["--features", features]
     for h in harnesses:
